@@ -27,7 +27,7 @@ import (
 // frame then silence, oversize frame, immediate close} interleaved at every position.
 
 type scfg struct {
-	Kind    string // "tcp" | "dtls"
+	Kind    string // "tcp" | "tls" (tcp server, conns with HandshakeContext, CSM enabled) | "dtls"
 	Adv     []string
 	Peers   int
 	Preempt int
@@ -57,8 +57,8 @@ func streamScenario(c scfg) *mcx.Scenario {
 				var serveDone func() bool
 				var stop func()
 				const maxSize = 64
-				if c.Kind == "tcp" {
-					t := srvw.NewTCP(srvw.StreamOpts{MaxMsgSize: maxSize, TCPHandler: func(w *responsewriter.ResponseWriter[*tcpclient.Conn], r *pool.Message) {
+				if c.Kind == "tcp" || c.Kind == "tls" {
+					t := srvw.NewTCP(srvw.StreamOpts{MaxMsgSize: maxSize, EnableCSM: c.Kind == "tls", TCPHandler: func(w *responsewriter.ResponseWriter[*tcpclient.Conn], r *pool.Message) {
 						b, _ := r.ReadBody()
 						ra := w.Conn().RemoteAddr().String()
 						handled[ra] = append(handled[ra], string(b))
@@ -76,12 +76,12 @@ func streamScenario(c scfg) *mcx.Scenario {
 				}
 				ok := func(context.Context) error { return nil }
 				var hs func(context.Context) error
-				if c.Kind == "dtls" {
+				if c.Kind == "dtls" || c.Kind == "tls" {
 					hs = ok
 				}
 				encode := func(i, j int) []byte {
 					pl := fmt.Sprintf("p%d-r%d", i, j)
-					if c.Kind == "tcp" {
+					if c.Kind != "dtls" {
 						return tcpw.Encode(message.Message{Code: codes.POST, Token: message.Token{0x10 + byte(i), byte(j)}, Options: message.Options{{ID: message.URIPath, Value: []byte("echo")}}, Payload: []byte(pl)})
 					}
 					return srvw.EncodeUDP(message.Message{Type: message.Confirmable, Code: codes.POST, MessageID: int32(100 + 10*i + j), Token: message.Token{0x10 + byte(i), byte(j)}, Options: message.Options{{ID: message.URIPath, Value: []byte("echo")}}, Payload: []byte(pl)})
@@ -137,7 +137,7 @@ func streamScenario(c scfg) *mcx.Scenario {
 							advConns = append(advConns, a)
 						case "oversize":
 							a := L.Connect(remote, hs)
-							if c.Kind == "tcp" {
+							if c.Kind != "dtls" {
 								a.Send([]byte{0xe1, 0x10, 0x00, 0x02, 0xaa, 1, 2, 3})
 							} else {
 								a.Send(bytes.Repeat([]byte{0x40}, maxSize+1))
@@ -164,7 +164,7 @@ func streamScenario(c scfg) *mcx.Scenario {
 				}
 				// a fresh connection must still be accepted and served
 				probe := L.Connect("10.0.0.99:49999", hs)
-				if c.Kind == "tcp" {
+				if c.Kind != "dtls" {
 					probe.Send(tcpw.Encode(message.Message{Code: codes.POST, Token: message.Token{0x77}, Options: message.Options{{ID: message.URIPath, Value: []byte("echo")}}, Payload: []byte("probe")}))
 				} else {
 					probe.Send(srvw.EncodeUDP(message.Message{Type: message.Confirmable, Code: codes.POST, MessageID: 9999, Token: message.Token{0x77}, Options: message.Options{{ID: message.URIPath, Value: []byte("echo")}}, Payload: []byte("probe")}))
@@ -179,7 +179,7 @@ func streamScenario(c scfg) *mcx.Scenario {
 					}
 					out := p.NewBytes()
 					var got []string
-					if c.Kind == "tcp" {
+					if c.Kind != "dtls" {
 						for len(out) > 0 {
 							var m message.Message
 							m.Options = make(message.Options, 0, 8)
@@ -188,7 +188,9 @@ func streamScenario(c scfg) *mcx.Scenario {
 								fail("server-wrote-garbage", "undecodable bytes written to peer %d", i)
 								break
 							}
-							got = append(got, fmt.Sprintf("%v/%s", m.Code, m.Payload))
+							if m.Code < codes.CSM || m.Code > codes.Abort { // signalling frames (the server's CSM) are not responses
+								got = append(got, fmt.Sprintf("%v/%s", m.Code, m.Payload))
+							}
 							out = out[n:]
 						}
 					} else if len(out) > 0 {
@@ -227,7 +229,7 @@ func streamScenario(c scfg) *mcx.Scenario {
 }
 
 func addStreamServers(r *ev.Run, scs *[]*mcx.Scenario) {
-	for _, kind := range []string{"tcp", "dtls"} {
+	for _, kind := range []string{"tcp", "tls", "dtls"} {
 		for _, a := range streamAdv {
 			if kind == "tcp" && strings.HasPrefix(a, "handshake") {
 				continue // plain TCP connections have no handshake; the TLS path is the dtls-style conn with HandshakeContext
